@@ -103,6 +103,7 @@ def harness_specs(tier):
     progs, tus = _setup(tier)
     specs = [dict(name=name, src=path, flavour='fast') for name, path, ids in tus]
     specs.append(dict(name=OLD_HARNESS, src=os.path.join(runner.ROOT, 'harness', 'h_c11_old.cpp'), flavour='fast'))
+    specs.append(dict(name='h_c16_bd', src=os.path.join(runner.ROOT, 'harness', 'h_c16_bd.cpp'), flavour='fast'))
     # compile-heavy: build here with bounded parallelism; the runner's own (16-way) build then only finds cache hits
     t0 = time.time()
     with ThreadPoolExecutor(max_workers=C11_JOBS) as ex:
@@ -230,6 +231,12 @@ def gen(tier, rng):
                 c.dom = False       # known-defect region: the model mirrors the unsound trait, NumPy is the judge
             yield c
     for c in gen_old(tier, rng):
+        yield c
+    # dot / matmul / inner / kron / tensordot over operands whose rank is only bounded (the grammar above has no linalg
+    # nodes): the rank bound of the result type and of the helper index results must cover the run-time rank (C16's unit)
+    import props.c16 as c16
+    for c in c16.bounded_rank_cases(tier, scale=2):
+        c.tags = tuple(c.tags) + ('linalg-bounded-rank',)
         yield c
 
 
@@ -370,7 +377,7 @@ def gen_old(tier, rng):
 def post(cases, tier):
     """guards of the machinery itself: a refusal (`nothing`) is no disagreement, but wholesale refusal would empty the check"""
     out = []
-    ran = [c for c in cases if c.impl not in (None, 'no-harness') and 'kind-slice' not in c.tags]     # the kind slice contains refused requests on purpose
+    ran = [c for c in cases if c.impl not in (None, 'no-harness') and 'kind-slice' not in c.tags and 'refused-by-numpy' not in c.tags]     # the kind slice contains refused requests on purpose
     refused = [c for c in ran if c.impl == 'nothing']
     if ran and len(refused) * 20 > len(ran):
         out.append(('refusals', 'IMPL refused (Nothing) %d of %d instances NumPy accepts, e.g. %s: the static knowledge of those types is not exercised' % (
@@ -379,7 +386,7 @@ def post(cases, tier):
 
 
 def coverage_extra(cases, tier):
-    refused = sum(1 for c in cases if c.impl == 'nothing' and 'kind-slice' not in c.tags)
+    refused = sum(1 for c in cases if c.impl == 'nothing' and 'kind-slice' not in c.tags and 'refused-by-numpy' not in c.tags)
     agree = total = 0
     for c in cases:
         if c.impl and c.impl.startswith('ok ') and c.oracle:
